@@ -4,6 +4,6 @@ from simcheck import sim_check
 
 def run(tier, seed, replay):
     kws = [dict(weights=dict(sop=8.0)), dict(policy="black", weights=dict(sop=7.0)), dict(policy="white"), dict(nclients=3, weights=dict(sop=7.0, sframe=2.0))]
-    return sim_check("C03", tier, seed, kws, n_quick=240, n_thorough=6000, oracle_props={"C03"}, known_ids=("D19",),
+    return sim_check("C03", tier, seed, kws, n_quick=240, n_thorough=24000, oracle_props={"C03"}, known_ids=("D19",),
                      rule_extra=", several structural operations on one entity inside one tick window spread over frames, visibility changes combined with despawns and removals, references to later-spawned entities",
                      extra_assumptions=["structure = held entities, component kind sets, marker, two-way map; entities the server pre-mapped for a client count as replicated to it"])
